@@ -245,6 +245,7 @@ SLOT = object()
 KV_SKELS = {
     # name: pieces; SLOT is replaced by the symbolic w
     "key": ['"', SLOT, '" "v"\n'],
+    "key_nl": ['"a\n', SLOT, '" "v"\n'],          # a quoted key that already holds a newline: the slot ends up in the error text
     "value": ['"k" "', SLOT, '"\n'],
     "raw_top": [SLOT, '"k" "v"\n'],
     "raw_val": ['"k" ', SLOT, '\n'],
@@ -384,12 +385,12 @@ def obligations(tier):
                     bound="7 symbolic bools"))
     skels = list(KV_SKELS)
     kv0 = [{"n": 0, "skel": k} for k in skels]
-    kv1_quick = ["raw_line", "raw_val", "raw_top"]
+    kv1_quick = ["raw_line", "raw_val", "raw_top", "key_nl"]
     kv1 = [{"n": 1, "skel": k} for k in (kv1_quick if quick else skels)]
     obls.append(Obl("kv.parse", MOD, "h_kv", slices=kv0 + kv1, budget_s=900 if quick else 2700, per_path_s=60,
                     desc="Keyvalues.parse returns a tree or raises exactly KeyValError (any other exception is a violation); one str == pieces; "
                          "3 flag truth values and 5 parse options symbolic",
-                    bound="12 skeletons with len(w) == 0; len(w) == 1 in " + (", ".join(kv1_quick) if quick else "all skeletons")))
+                    bound="13 skeletons with len(w) == 0; len(w) == 1 in " + (", ".join(kv1_quick) if quick else "all skeletons")))
     obls.append(Obl("kv.witness", MOD, "h_kv_witness", slices=[{"n": 0, "skel": "switch"}, {"n": 1, "skel": "raw_line"}],
                     budget_s=120, per_path_s=60, witness=True, desc="reachability twin of kv.parse"))
     if not quick:
